@@ -27,9 +27,9 @@ Variable dur : node -> xtime.
 Variable tmin : Q.
 Variables i0 r0 : list node.
 
-Hypothesis Hdelay : forall u v d, delay u v = Some d -> 0 <= d.
-Hypothesis Hdur : forall u d, dur u = Some d -> 0 <= d.
-Hypothesis Hadj : forall u, NoDup (gadj g u).
+Hypothesis Hdelay : forall u v d, In u (gnodes g) -> In v (gadj g u) -> delay u v = Some d -> 0 <= d.
+Hypothesis Hdur : forall u d, In u (gnodes g) -> dur u = Some d -> 0 <= d.
+Hypothesis Hadj : forall u, In u (gnodes g) -> NoDup (gadj g u).
 Hypothesis Hdisj : forall u, In u i0 -> ~ In u r0.
 Hypothesis Htmin : ltmax tmax tmin.
 Hypothesis Hgn : NoDup (gnodes g).
@@ -187,7 +187,7 @@ Proof.
       split.
       * intros x sr w Hx Hqx. unfold s' in Hx. rewrite ai_qu in Hx.
         apply sfold_queue_new in Hx.
-        2:{ unfold td. rewrite det_delays_fst. unfold sus. unfold sus_nbrs. apply NoDup_filter. apply Hadj. }
+        2:{ unfold td. rewrite det_delays_fst. unfold sus. unfold sus_nbrs. apply NoDup_filter. apply Hadj. exact Hvg. }
         destruct Hx as [Hx|[w' [d [Hin [_ Hqx']]]]].
         -- apply q1_In in Hx; [|exact td]. destruct Hx as [Hx|[r [_ [_ ->]]]]; [|discriminate].
            apply (HF x sr w); auto.
@@ -226,6 +226,7 @@ Proof.
     + destruct (step_fuel s e q' HF Hq) as [HF' Hlt].
       apply (IH _ (qt e)); [|exact HF'|lia].
       apply (step_det_inv tb g tmax delay dur tmin i0 r0 Hdelay Hdur Hadj Htmin c s e q' HI Hq).
+      intros src v He. apply (HF e src v); auto. rewrite Hq. left. auto.
 Qed.
 
 Lemma wS_le_all : forall st l, (wS st l <= fold_right (fun v a => S (length (gadj g v)) + a) O l)%nat.
@@ -251,14 +252,14 @@ Proof.
 Qed.
 
 (* the run ends, within the fuel, in a state with an empty queue that satisfies the invariant *)
-Theorem esir_terminates :
-  exists sF cF, esir_run tb g delay dur i0 r0 tmin tmax (esir_fuel g i0) = Ok sF /\
+Theorem esir_terminates : forall fuel, (esir_fuel g i0 <= fuel)%nat ->
+  exists sF cF, esir_run tb g delay dur i0 r0 tmin tmax fuel = Ok sF /\
                 qu sF = [] /\ INV cF sF.
 Proof.
-  unfold esir_run. apply (loop_terminates _ _ tmin).
+  intros fuel Hf. unfold esir_run. apply (loop_terminates _ _ tmin).
   - apply init_inv.
   - apply init_fuel_inv.
-  - apply init_phi.
+  - pose proof init_phi. lia.
 Qed.
 
 End Main.
